@@ -93,6 +93,9 @@ static int flat_xor_hd_reconstruct(void *desc,
         (struct flat_xor_hd_descriptor *) desc;
 
     xor_code_t *xor_desc = (xor_code_t *) xdesc->xor_desc;
+    if (get_failure_pattern(xor_desc, missing_idxs) == FAIL_PATTERN_GE_HD) {
+        return -1;
+    }
     xor_reconstruct_one(xor_desc, data, parity,
                           missing_idxs, destination_idx, blocksize);
     return 0;
